@@ -104,6 +104,8 @@ FIELD = {
     "srinhb": {"sr_inhb": True},
     "cn+20": {"curve_number_adj": True, "curve_number_adj_pct": 20},
     "cn-20": {"curve_number_adj": True, "curve_number_adj_pct": -20},
+    # every feature switched OFF with non-neutral parameters parked behind the switches
+    "parked": {"curve_number_adj": False, "curve_number_adj_pct": -30, "mulches": False, "mulch_pct": 60, "f_mulch": 0.7, "bunds": False, "z_bund": 0.2, "bund_water": 35},
 }
 
 GW = {
